@@ -80,6 +80,16 @@ example :
       = some [("bits", [0, 11, 0, 0, 0, 0, 0, 0]), ("payload", [4]), ("payload-list", [5])] := by
   decide
 
+/-- a field that holds None ("not set") and has a pack rule: the rule sees the None in BOTH forms (the theorem above
+    quantifies over all attribute values; this instance is the one seeded change C20_m10 breaks in the interpreted
+    `_fix_pack`) -/
+example :
+    let d : PDef (Option Nat) := { fmts := [.str "?", .str "I"], names := ["flag", "n"],
+                                   fixPack := [("flag", fun v => match v with | none => some 1 | some x => some x)] }
+    (interpPack d [("n", some 5), ("flag", none)]).toOption = some [("?", [some 1]), ("I", [some 5])]
+    ∧ (compiledPack some d [("n", some 5), ("flag", none)]).toOption = some [("?", [some 1]), ("I", [some 5])] := by
+  decide
+
 /-- constructor → pack list → bytes, composed (the property's "given the same constructor arguments … the same
     bytes"): for every packer function the compiled form's bytes equal the interpreted form's, or both fail -/
 theorem compiled_ctor_to_bytes_eq (splice : V → Option V) (packer : String → List V → Option Bytes) (d : PDef V)
@@ -497,6 +507,17 @@ example :
     ∧ (c.classData (c.run Gen.newGuard [0]) 1).toOption = some ([.str "q", .str "?"], ["ident", "flag"])
     ∧ (c.hierInit Gen.newGuard some (c.run Gen.newGuard [0]) 1 [5] []).toOption
         = some [("text", 8), ("body", 7), ("flag", 1), ("ident", 5)] := by
+  decide
+
+/-- a subclass that declares a parent's `tuple[...]` field again with a NON-container type has no container rule of its
+    own, whatever was converted before (the rule is a function of the class's own annotations; seeded change C20_m11
+    kept the parent's) -/
+example :
+    let c : DChain Nat := { levels := [[("a", .int, none), ("t", .coll .tuple .int, none)], [("t", .bytes, none)]] }
+    ((c.ddef 0).toPDef.toOption.map (fun d => (d.fmts, d.fixUnpack.map (·.1))))
+        = some ([.str "q", .str "arrayH-q"], ["t"])
+    ∧ ((c.ddef 1).toPDef.toOption.map (fun d => (d.fmts, d.fixUnpack.map (·.1))))
+        = some ([.str "q", .str "varlenH"], []) := by
   decide
 
 /-- an UNCOMPILED subclass of a vp_compile'd class that extends the field list inherits the parent's generated
